@@ -54,7 +54,7 @@ Proof.
 Qed.
 
 (** * the source: what the duplication reads *)
-Definition readable h b : Prop := exists s, str_at h b s /\ existsb (Z.eqb 0) s = true.
+Definition readable h b : Prop := exists s, str_is h b s /\ existsb (Z.eqb 0) s = true.
 Definition src_node h (lf : nat) i d (ks : list positive) : Prop :=
   nd_at h i (mk_dat d ks) /\ length ks < lf /\
   (forall b, rd_vstr d = Some b -> readable h b) /\
@@ -100,13 +100,13 @@ Definition complete (t : tree) : Prop := forall i d, (i, d, []) ∈ flat_t t -> 
 (** monotonicity in the point-wise facts *)
 Definition pt_mono (h h' : heap) : Prop :=
   (forall i nd, nd_at h i nd -> nd_at h' i nd) /\ (forall i e, lk_at h i e -> lk_at h' i e) /\
-  (forall b s, str_at h b s -> str_at h' b s).
-Lemma pt_mono_frame ns ss g g' : Frame ns ss g g' -> pt_mono g g'.
+  (forall b s, str_is h b s -> str_is h' b s).
+Lemma pt_mono_frame ns ss g g' : Ext ns ss g g' -> pt_mono g g'.
 Proof.
   intros Fr. split_and!; intros ? ? H.
   - exact (nd_at_frame _ _ _ _ _ _ Fr H).
   - exact (lk_at_frame _ _ _ _ _ _ Fr H).
-  - exact (str_at_frame _ _ _ _ _ _ Fr H).
+  - exact (str_is_frame _ _ _ _ _ _ Fr H).
 Qed.
 
 Lemma readable_mono h h' b : pt_mono h h' -> readable h b -> readable h' b.
@@ -135,7 +135,7 @@ Proof. intros Hm. apply src_list_mono_gen; [done|]. intros t. by apply src_t_mon
 
 (** * the copy relation *)
 Definition str_copy h (b b' : positive) : Prop :=
-  exists s, str_at h b s /\ str_at h b' (cstr s ++ [0%Z]).
+  exists s, str_is h b s /\ str_is h b' (cstr s ++ [0%Z]).
 Definition data_copy h d d' : Prop :=
   rd_type d' = clear_flag (rd_type d) c_cJSON_IsReference /\
   rd_vint d' = rd_vint d /\ rd_vdbl d' = rd_vdbl d /\ rd_ref d' = None /\
@@ -179,16 +179,16 @@ Proof.
   cbn [app]. rewrite copy_list_cons in *. destruct H1 as [Ha Hr]. split; [done|by apply IH].
 Qed.
 
-Lemma str_copy_mono h h' b b' : (forall b s, str_at h b s -> str_at h' b s) -> str_copy h b b' -> str_copy h' b b'.
+Lemma str_copy_mono h h' b b' : (forall b s, str_is h b s -> str_is h' b s) -> str_copy h b b' -> str_copy h' b b'.
 Proof. intros Hm (s & H1 & H2). exists s. split; by apply Hm. Qed.
-Lemma data_copy_mono h h' d d' : (forall b s, str_at h b s -> str_at h' b s) -> data_copy h d d' -> data_copy h' d d'.
+Lemma data_copy_mono h h' d d' : (forall b s, str_is h b s -> str_is h' b s) -> data_copy h d d' -> data_copy h' d d'.
 Proof.
   intros Hm (H1 & H2 & H3 & H4 & H5 & H6). split_and!; try done.
   - destruct (rd_vstr d); [|done]. destruct H5 as (b' & ? & ?). exists b'. split; [done|by eapply str_copy_mono].
   - destruct (rd_key d); [|done]. destruct (is_const d); [done|].
     destruct H6 as (b' & ? & ?). exists b'. split; [done|by eapply str_copy_mono].
 Qed.
-Lemma copy_of_mono h h' t tc : (forall b s, str_at h b s -> str_at h' b s) -> copy_of h t tc -> copy_of h' t tc.
+Lemma copy_of_mono h h' t tc : (forall b s, str_is h b s -> str_is h' b s) -> copy_of h t tc -> copy_of h' t tc.
 Proof.
   intros Hm. revert tc. induction t as [i d cs IH] using tree_ind'. intros [i' d' cs'].
   rewrite !copy_of_unfold. intros [H1 H2]. split; [by eapply data_copy_mono|].
@@ -196,7 +196,7 @@ Proof.
   rewrite copy_list_cons in *. apply Forall_cons in IH as [IHa IHr']. destruct H2 as [Ha Hr].
   split; [by apply IHa|by apply IHr].
 Qed.
-Lemma copy_list_mono h h' l l' : (forall b s, str_at h b s -> str_at h' b s) -> copy_list h l l' -> copy_list h' l l'.
+Lemma copy_list_mono h h' l l' : (forall b s, str_is h b s -> str_is h' b s) -> copy_list h l l' -> copy_list h' l l'.
 Proof.
   intros Hm. revert l'. induction l as [|a r IHr]; intros [|a' r'] H; try done.
   rewrite copy_list_cons in *. destruct H as [Ha Hr]. split; [by eapply copy_of_mono|by apply IHr].
@@ -274,7 +274,7 @@ Qed.
 
 (** * the partial copy *)
 Record Partial g gc n d tcs : Prop := mkPartial {
-  pa_frame : Frame (n :: nids (flat tcs)) (owned_strs d ++ sids (flat tcs)) g gc;
+  pa_frame : Ext (n :: nids (flat tcs)) (owned_strs d ++ sids (flat tcs)) g gc;
   pa_nodup : NoDup ((n :: nids (flat tcs)) ++ owned_strs d ++ sids (flat tcs));
   pa_node : nd_at gc n (mk_dat d (tid <$> tcs));
   pa_root : lk_at gc n (None, None);
@@ -305,7 +305,7 @@ Proof.
     + destruct (C2 i d' ks j c He Hj) as [_ H]. exists (link_at ks j).2. by destruct j.
   - rewrite Partial_owned_perm. apply P.
   - intros b Hb. rewrite Partial_owned_perm in Hb.
-    destruct (fr_new _ _ _ _ (pa_frame _ _ _ _ _ P) b Hb) as (_ & _ & ? & ?). done.
+    destruct (xt_new _ _ _ _ (pa_frame _ _ _ _ _ P) b Hb) as (_ & _ & ? & ?). done.
   - rewrite Hfl. apply Forall_cons. split; [|apply P]. destruct (pa_refd _ _ _ _ _ P) as [R1 R2].
     split; cbn; [by rewrite R1|by rewrite R2].
 Qed.
@@ -328,36 +328,36 @@ Lemma fa_hooks bs h : h_hooks (free_all bs h) = h_hooks h.
 Proof. revert h. induction bs as [|c bs IH]; intros h; [done|]. by rewrite free_all_cons, IH. Qed.
 
 (** releasing exactly the new blocks gives the old heap back (up to the allocator's counters) *)
-Lemma Frame_free_all ns ss bs g g' :
-  Frame ns ss g g' -> bs ≡ₚ ns ++ ss -> Frame [] [] g (free_all bs g').
+Lemma Ext_free_all ns ss bs g g' :
+  Ext ns ss g g' -> bs ≡ₚ ns ++ ss -> Ext [] [] g (free_all bs g').
 Proof.
   intros Fr Hbs.
   assert (Hnew : forall k, k ∈ bs -> (h_next g <= k)%positive).
-  { intros k Hk. rewrite Hbs in Hk. by destruct (fr_new _ _ _ _ Fr k Hk) as [? _]. }
-  pose proof (fr_closed0 _ _ _ _ Fr) as C0.
+  { intros k Hk. rewrite Hbs in Hk. by destruct (xt_new _ _ _ _ Fr k Hk) as [? _]. }
+  pose proof (xt_closed0 _ _ _ _ Fr) as C0.
   constructor.
   - intros k _. destruct (decide (k ∈ bs)) as [Hin|Hnin].
     + rewrite free_all_lnk_lookup_in by done. symmetry. by destruct (C0 k (Hnew k Hin)) as (_ & ? & _).
-    + rewrite free_all_lnk_lookup by done. apply (fr_lnk _ _ _ _ Fr). intros Hk. apply Hnin. rewrite Hbs.
+    + rewrite free_all_lnk_lookup by done. apply (xt_lnk _ _ _ _ Fr). intros Hk. apply Hnin. rewrite Hbs.
       apply elem_of_app. by left.
   - intros k _. destruct (decide (k ∈ bs)) as [Hin|Hnin].
     + rewrite free_all_dat_lookup_in by done. symmetry. by destruct (C0 k (Hnew k Hin)) as (_ & _ & ? & _).
-    + rewrite free_all_dat_lookup by done. apply (fr_dat _ _ _ _ Fr). intros Hk. apply Hnin. rewrite Hbs.
+    + rewrite free_all_dat_lookup by done. apply (xt_dat _ _ _ _ Fr). intros Hk. apply Hnin. rewrite Hbs.
       apply elem_of_app. by left.
   - intros k _. destruct (decide (k ∈ bs)) as [Hin|Hnin].
     + rewrite fa_str_lookup_in by done. symmetry. by destruct (C0 k (Hnew k Hin)) as (_ & _ & _ & ?).
-    + rewrite fa_str_lookup by done. apply (fr_str _ _ _ _ Fr). intros Hk. apply Hnin. rewrite Hbs.
+    + rewrite fa_str_lookup by done. apply (xt_str _ _ _ _ Fr). intros Hk. apply Hnin. rewrite Hbs.
       apply elem_of_app. by right.
   - intros k _ _. rewrite free_all_live. destruct (decide (k ∈ bs)) as [Hin|Hnin].
     + split; [tauto|]. intros Hl. by destruct (C0 k (Hnew k Hin)) as (? & _).
-    + rewrite (fr_live _ _ _ _ Fr); [tauto| |]; intros Hk; apply Hnin; rewrite Hbs; apply elem_of_app; eauto.
-  - intros k Hk. rewrite free_all_own. by apply (fr_own _ _ _ _ Fr).
+    + rewrite (xt_live _ _ _ _ Fr); [tauto| |]; intros Hk; apply Hnin; rewrite Hbs; apply elem_of_app; eauto.
+  - intros k Hk. rewrite free_all_own. by apply (xt_own _ _ _ _ Fr).
   - rewrite free_all_next. apply Fr.
   - rewrite fa_req. apply Fr.
   - rewrite fa_hooks. apply Fr.
   - intros b Hb. by apply elem_of_nil in Hb.
   - done.
-  - intros k Hk. rewrite free_all_next in Hk. destruct (fr_closed _ _ _ _ Fr k Hk) as (C1 & C2 & C3 & C4).
+  - intros k Hk. rewrite free_all_next in Hk. destruct (xt_closed _ _ _ _ Fr k Hk) as (C1 & C2 & C3 & C4).
     split_and!.
     + rewrite free_all_live. tauto.
     + destruct (decide (k ∈ bs)); [by rewrite free_all_lnk_lookup_in|by rewrite free_all_lnk_lookup].
@@ -368,7 +368,7 @@ Qed.
 Lemma Partial_delete g gc n d tcs :
   Partial g gc n d tcs ->
   cJSON_Delete (Some n) gc = Ret (tt, free_all (free_order [T n d tcs]) gc) /\
-  Frame [] [] g (free_all (free_order [T n d tcs]) gc).
+  Ext [] [] g (free_all (free_order [T n d tcs]) gc).
 Proof.
   intros P. split.
   - unfold cJSON_Delete, heap_fuel. unfold bindM at 1.
@@ -378,6 +378,6 @@ Proof.
     { unfold nodes. cbn. rewrite app_nil_r. unfold ids. by rewrite fmap_length. }
     apply NoDup_length_lt_pos; [by eapply Partial_ids_nodup|].
     intros x Hx. rewrite <- nids_flat in Hx.
-    destruct (fr_new _ _ _ _ (pa_frame _ _ _ _ _ P) x) as (_ & ? & _); [apply elem_of_app; by left|done].
-  - eapply Frame_free_all; [apply P|]. by rewrite free_order_owned, Partial_owned_perm.
+    destruct (xt_new _ _ _ _ (pa_frame _ _ _ _ _ P) x) as (_ & ? & _); [apply elem_of_app; by left|done].
+  - eapply Ext_free_all; [apply P|]. by rewrite free_order_owned, Partial_owned_perm.
 Qed.
